@@ -4,6 +4,7 @@
               the accesses it must see for this location
    BlockCase  the requests to the client that wait for an answer, with the locks held across them
    OrderCase  the lock nesting edges (outer, inner) in the translator's numbering
+   LeakCase   number of return points reached with a lock held and no deferred release
    RunCase    a batch of race-detector stress scenarios: scenarios run, race report signatures,
               hang, crash, responses that differ from the quiesced sequential replay *)
 From HL Require Export Lib.Bytes Lib.Judge Model.Locks.
@@ -13,6 +14,7 @@ Inductive ccase :=
 | LocCase (name : list N) (rows : list row) (canary : bool)
 | BlockCase (rows : list brow) (canary : bool)
 | OrderCase (edges : list (N * N))
+| LeakCase (held_at_return : N)
 | RunCase (scenarios : N) (races : list (list N)) (hang crash : bool) (mismatch : list (list N)).
 
 (* thread kinds: 0 initialisation (before any other thread exists), 1 the dispatcher (one
@@ -24,6 +26,7 @@ Definition tie_ok (c : ccase) : bool :=
   | LocCase _ _ canary => canary
   | BlockCase _ canary => canary
   | OrderCase _ => true
+  | LeakCase _ => true
   | RunCase n _ _ _ _ => 0 <? n
   end.
 
@@ -32,6 +35,7 @@ Definition oracle_ok (c : ccase) : bool :=
   | LocCase _ rows _ => disciplined conc rows
   | BlockCase rows _ => no_lock_across_blocking rows
   | OrderCase edges => order_ok edges
+  | LeakCase n => n =? 0
   | RunCase _ races hang crash mismatch => match races with [] => true | _ => false end && negb hang && negb crash && match mismatch with [] => true | _ => false end
   end.
 
